@@ -244,9 +244,12 @@ def _run_g4(spec):
 
     @hseed(h64(("c10g4", seed, shard)))
     @settings(max_examples=examples, database=None, deadline=None, phases=[Phase.generate], suppress_health_check=list(HealthCheck))
-    @given(g=gg.closed_cfgs(max_n=max_n, modes=["structured", "structured", "local", "motif", "uniform"]), style=st.sampled_from(["num", "alpha"]))
-    def t(g, style):
-        named = gg.restyle(g, style)
+    @given(g=gg.closed_cfgs(max_n=max_n, modes=["structured", "structured", "local", "motif", "uniform", "compose"]), style=st.sampled_from(["num", "alpha", "perm", "perm"]), pk=st.integers(0, 2**20))
+    def t(g, style, pk):
+        from vpbt.sweep import _perm
+
+        named = gg.restyle(g, style, _perm(len(g), pk) if style == "perm" else None)  # perm: the entry is not the block named '0'
+
         status, sig, msg, info = check_g4(named)
         col.count("g4_" + status)
         for k, v in info.items():
@@ -321,7 +324,26 @@ def _run_reuse(spec):
     return col.result()
 
 
+def _run_manyway(spec):
+    """loops with 5-13 distinct exits / entries: many-way dispatch cascades in the generated code"""
+    from vpbt.checks import c02
+
+    col = Collector()
+    for f, k in c02.MANYWAY:
+        for style in ("num", "perm"):
+            g = f(k)
+            named = gg.restyle(g, style, list(range(len(g) - 1, -1, -1)) if style == "perm" else None)
+            status, sig, msg, info = check_g4(named)
+            col.count("g4_" + status)
+            if status == "fail":
+                col.fail(sig, msg, dict(graph=gg.graph_to_json(named)), len(named))
+            col.case(("g4mw", f.__name__, k, style), len(named), status == "ok", sample=dict(graph=gg.graph_to_str(named), status=status, dispatch_width=k), classes=["g4", "manyway", "g4_" + status])
+    return col.result()
+
+
 def run(spec):
+    if spec[0] == "manyway":
+        return _run_manyway(spec)
     if spec[0] == "g4":
         return _run_g4(spec)
     if spec[0] == "reuse":
@@ -331,8 +353,8 @@ def run(spec):
 
 def plan(tier, seed):
     if tier == "quick":
-        return _pplan(tier, seed, quick=(150, 0, 0, 40, 1), fuzz_mod=__name__) + [("g4", seed, s, 120, 10) for s in range(16)] + [("reuse", seed, s, 40) for s in range(8)]
-    return _pplan(tier, seed, thorough=(2000, 0, 0, 300, 2), fuzz_mod=__name__) + [("g4", seed, s, 1500, 16) for s in range(32)] + [("reuse", seed, s, 600) for s in range(16)]
+        return _pplan(tier, seed, quick=(150, 0, 0, 40, 1), fuzz_mod=__name__) + [("g4", seed, s, 120, 10) for s in range(16)] + [("reuse", seed, s, 40) for s in range(8)] + [("manyway",)]
+    return _pplan(tier, seed, thorough=(2000, 0, 0, 300, 2), fuzz_mod=__name__) + [("g4", seed, s, 1500, 16) for s in range(32)] + [("reuse", seed, s, 600) for s in range(16)] + [("manyway",)]
 
 
 def replay(inp):
